@@ -1,18 +1,19 @@
 /-
-  K04b (decoder, encoder as a whole) — `ReedSolomonEncoder.Encode`, `ReedSolomonDecoder.Decode`, `runEuclideanAlgorithm`,
+  K04b (evaluation checks) — `ReedSolomonEncoder.Encode`, `ReedSolomonDecoder.Decode`, `runEuclideanAlgorithm`,
   `findErrorLocations`, `findErrorMagnitudes` regenerated from /repo on every run (`Gzx.Gen.K04b`).
 
-  PARTIAL — NOT THEOREMS: unlike K04b / K04bPoly / K04bDiv / K04bEnc (theorems for all inputs), this file only EVALUATES the
-  regenerated definitions (Lean's evaluator, at elaboration time of this module, on every check; kernel evaluation of one
-  sample takes minutes) on a structured, fixed sample and fails the build of the module when a result differs from the model:
+  NOT THEOREMS (the theorems for all inputs are in Obligations/K04bEnc, K04bForney, K04bChien, K04bEuclid, K04bDecode): this
+  file additionally EVALUATES the regenerated definitions (Lean's evaluator, at elaboration time of this module, on every
+  check; kernel evaluation of one sample would take minutes) on a structured, fixed sample and fails the build of the module
+  when a result differs from the model:
   every single-error word, a spread of double-error words, uncorrectable (triple-error) words and clean words of the (7,3)
-  code over GF(16) (generator base 1) and of a (10,6) code over the QR field GF(256) (generator base 0), malformed calls
-  (no parity, no data, empty word, symbol outside the field).  For each sample the regenerated function must return exactly
-  what the model returns (corrected word / checked error / panic; for the three inner functions: on the model's own
-  intermediate values).  What is missing for the full statement `∀ input, Gen.f … = Model.f …`: the loop transfer for the two
-  nested fuel loops of `runEuclideanAlgorithm`, the Chien loop, the Forney double loop and the correction loop (the lemmas of
-  Proofs/K04bTie.lean cover their shapes; the proofs are not written).  A change of one of these five functions that alters
-  its result on any sample fails the check named after it (reported by bin/check as a broken obligation of this module).
+  and (15,11) codes over GF(16) (generator base 1) and of a (10,4) code over the QR field GF(256) (generator base 0), malformed
+  calls (no parity, no data, empty word, symbol outside the field), encoder calls with garbage in the parity slots.  For each
+  sample the regenerated function must return exactly what the model returns (corrected word / checked error / panic; for
+  the three inner functions: on the model's own intermediate values).  Purpose: an executable cross-check of the translator's
+  run-time library and of the theorem statements (the regenerated code RUNS and gives the model's answers), and a second,
+  proof-independent alarm: a change of one of these five functions that alters its result on any sample fails the check named
+  after it (reported by bin/check as a broken obligation of this module).
 -/
 import Gzx.Obligations.K04bEnc
 namespace Gzx.Obligations.K04bDec
